@@ -168,6 +168,9 @@ class P(Prop):
                 out.append(dict(op="arb_vec_f64", bytes=bs, meta={"class": "vec/" + style}))
             else:
                 xs = [C.bits(rng.uniform(-6, 6)) for _ in range(6)] + [C.bits(float("inf")), C.NAN_BITS]
+                if rng.random() < 0.5:
+                    xs.insert(rng.randrange(len(xs)), C.bits(float("-inf")))
+                    xs.insert(0, C.bits(float("-inf")))
                 dec_ends, _ = py_decode(bs, npiece)
                 good = [e for e in dec_ends if is_normal(e)]
                 if good and rng.random() < 0.7:
